@@ -17,6 +17,7 @@ import (
 	"encoding/json"
 	"errors"
 	"fmt"
+	"io"
 	"os"
 	"path/filepath"
 	"runtime"
@@ -383,6 +384,32 @@ type world struct {
 	nextFail  string         // "", "disk" (diskBuf cannot create its file), "encode" (a record the encoder rejects)
 	faultErrs int            // Store calls that failed on a damaged disk buffer
 	cutSeen   int            // updates that were cut by a failed Store
+	// the next Store call's writer fails after this many bytes (-1: it does not)
+	writerLimit int
+	damageAt    map[uint64]int
+	archived    []loaded // entries loaded from outputs that were given up after a writer failure
+}
+
+// limitW is an io.Writer that takes limit bytes and then fails.
+type limitW struct {
+	buf    *bytes.Buffer
+	limit  int
+	failed bool
+}
+
+func (l *limitW) Write(p []byte) (int, error) {
+	if l.failed {
+		return 0, errors.New("write: no space left on device")
+	}
+	if l.limit >= len(p) {
+		l.limit -= len(p)
+		return l.buf.Write(p)
+	}
+	l.failed = true
+	n := l.limit
+	l.buf.Write(p[:n])
+	l.limit = 0
+	return n, errors.New("write: no space left on device")
 }
 
 func newWorld(r *hx.Run, p *pool) *world {
@@ -390,7 +417,7 @@ func newWorld(r *hx.Run, p *pool) *world {
 	if err != nil {
 		panic(err)
 	}
-	w := &world{r: r, p: p, st: st, src: &uuidSrc{}, live: map[uint64]*update{}, damage: map[uint64]int{}}
+	w := &world{r: r, p: p, st: st, src: &uuidSrc{}, live: map[uint64]*update{}, damage: map[uint64]int{}, writerLimit: -1}
 	uuid.SetRand(w.src)
 	r.Op("reset", "ok", false)
 	return w
@@ -647,25 +674,46 @@ func sortedU(m map[uint64]bool) []uint64 {
 // order consistent with what was observed.
 func (w *world) store() {
 	var fs []string
+	w.damageAt = map[uint64]int{}
 	for _, c := range sortedU(keysOf(w.live)) {
 		if k, ok := w.damage[c]; ok {
 			fs = append(fs, fmt.Sprintf("%d:%d", c, k))
+			w.damageAt[c] = k
 		}
 	}
-	faultArg := "-"
-	if len(fs) > 0 {
-		faultArg = strings.Join(fs, ",")
-	}
+	var cutRef uint64
+	cutLines := 0
 	before := w.buf.Len()
 	var err error
+	var lw *limitW
+	var dst io.Writer = &w.buf
+	if w.writerLimit >= 0 {
+		lw = &limitW{buf: &w.buf, limit: w.writerLimit}
+		dst = lw
+		w.hist = append(w.hist, fmt.Sprintf("(the writer of the next Store fails after %d bytes)", w.writerLimit))
+		w.writerLimit = -1
+	}
 	out := hx.Guard(func() string {
-		err = w.st.Store(&w.buf)
+		err = w.st.Store(dst)
 		if err != nil {
 			return "err"
 		}
 		return "ok"
 	})
 	written := w.buf.Bytes()[before:]
+	torn := false
+	if lw != nil && lw.failed {
+		// the last Write was taken in part: a line without its end
+		// (if only the newline is missing the line is whole and the loader reads it)
+		if i := bytes.LastIndexByte(written, '\n'); i+1 < len(written) && !json.Valid(written[i+1:]) {
+			torn = true
+			written = written[:i+1]
+		}
+		w.r.Count("fault:writer-failed")
+		if err == nil && out == "ok" {
+			w.r.Fail("", "Store returned nil although its writer failed: "+w.witness())
+		}
+	}
 	lines, seen := w.parseWritten(written)
 	remaining := map[uint64]bool{}
 	if out != "panic" {
@@ -720,6 +768,7 @@ func (w *world) store() {
 				u.cut = writtenOf[c]
 				w.cutSeen++
 				cutNow++
+				cutRef, cutLines = c, u.cut
 				notes = append(notes, fmt.Sprintf("(Store wrote %d of the %d records of %s)", u.cut, len(u.toks), u.desc))
 			}
 			delete(w.live, c)
@@ -733,7 +782,28 @@ func (w *world) store() {
 	if out != "panic" {
 		out = fmt.Sprintf("%s lines=%s left=%s", out, ls, joinU(left))
 	}
+	if lw != nil && lw.failed && cutRef != 0 {
+		// the writer failed while the entry cutRef was being written: for the map
+		// and for the complete lines in the output this is the disk-buffer fault
+		// "cutRef yields cutLines lines"
+		w.damageAt[cutRef] = cutLines
+		fs = fs[:0]
+		ks := map[uint64]bool{}
+		for c := range w.damageAt {
+			ks[c] = true
+		}
+		for _, c := range sortedU(ks) {
+			fs = append(fs, fmt.Sprintf("%d:%d", c, w.damageAt[c]))
+		}
+	}
+	faultArg := "-"
+	if len(fs) > 0 {
+		faultArg = strings.Join(fs, ",")
+	}
 	w.r.Op("store "+joinU(order)+" "+faultArg, out, true)
+	if torn {
+		w.r.Op("tear", "ok", false)
+	}
 	w.hist = append(w.hist, "Store")
 	sort.Strings(notes)
 	w.hist = append(w.hist, notes...)
@@ -757,6 +827,28 @@ func (w *world) store() {
 	// statement is judged on that, not on what the map still holds. A Store
 	// error is itself a failure of the statement (see oracle).
 	w.unflushed = false
+	if lw != nil && lw.failed {
+		// This output is given up: see what it loads as, then go on with a new one.
+		outl, got, fin := w.runLoader(w.buf.Bytes())
+		w.r.Op("load", outl, true)
+		w.hist = append(w.hist, "Load")
+		want := "F/ok"
+		if torn {
+			want = "F/err"
+		}
+		if fin != want {
+			w.r.Fail("", fmt.Sprintf("the output of a Store whose writer failed (torn line: %v) loads with end %s, want %s: %s", torn, fin, want, w.witness()))
+		}
+		for _, g := range got {
+			if g.nilEntry {
+				w.r.Fail("", "Next reported true with a nil Entry: "+w.witness())
+			}
+		}
+		w.archived = append(w.archived, got...)
+		w.buf.Reset()
+		w.r.Op("newfile", "ok", false)
+		w.hist = append(w.hist, "(new output)")
+	}
 }
 
 // damageBuf damages the disk buffer of the live entry ref so that it yields
@@ -1006,6 +1098,7 @@ func (w *world) load() {
 
 // oracle is the direct check of the statement on the implementation.
 func (w *world) oracle(got []loaded, fin string) {
+	got = append(append([]loaded(nil), w.archived...), got...)
 	for _, g := range got {
 		if g.nilEntry {
 			w.r.Fail("", "Next reported true with a nil Entry: "+w.witness())
@@ -1111,6 +1204,7 @@ func (w *world) hasOversize() bool {
 //	F G              the next recording call fails: diskBuf cannot create its file / the encoder rejects a record
 //	C K<k> M<k> N<k> damage the disk buffer of the update recorded last: close it, truncate it after line k,
 //	                 inside line k, just before the newline of line k
+//	W<n>             the writer given to the next Store call fails after n bytes
 //	T                load what was written with the file cut inside its last line
 //	S                Store
 //	L                Load
@@ -1158,6 +1252,8 @@ func script(r *hx.Run, p *pool, text string) {
 			if len(w.all) > 0 {
 				w.damageBuf(w.all[len(w.all)-1].ref, head, k, 7)
 			}
+		case 'W':
+			w.writerLimit, _ = strconv.Atoi(rest)
 		case 'T':
 			w.cutLoad(i * 37)
 		case 'F':
@@ -1267,6 +1363,9 @@ var builtin = []string{
 	"v2 K2 S L",                            // nothing is missing: no failure
 	"v2 K5 e0 C S L",                       // harmless faults (beyond the end; an update without records)
 	"v3 K0 e2 K1 v1 S S S L",               // two damaged buffers: each Store call stops at one of them
+	"v3 W700 S S L",                        // the writer fails inside a line: Store reports it; the torn output ends in an error
+	"v2 e3 v1 W0 S S L",                    // nothing at all is accepted
+	"e2 v2 W100000 S L",                    // a limit that is never reached
 }
 
 var builtinBig = []string{
@@ -1364,6 +1463,9 @@ func history(r *hx.Run, rnd *hx.Rand, p *pool) {
 		default:
 			w.query()
 		}
+	}
+	if faulty && rnd.Chance(1, 4) {
+		w.writerLimit = rnd.Intn(6000)
 	}
 	w.store()
 	w.load()
